@@ -40,9 +40,9 @@ CLAIMS = {
  "C11": ("The full property is false of the crate (known finding, Lean counterexample evaluated on the model and replayed on the crate). Proved: C11_partial — the restored level hands out its orders exactly in snapshot (timestamp) order, so it reproduces the original's order iff the original's hand-out order equals its listing. "
          "Not proved: lifting to equal outputs for every continuation. Tie: E-seq with a forked real level restored from the snapshot and fed the same continuation; differences classified by the driver.",
          "Lean 4 proof (partial) + counterexample by evaluation + differential correspondence on two real levels; known finding", "DESIGN §6 C11"),
- "C03": ("Theorems over the Lean small-step model for EVERY schedule, any number of threads/ops: the inductive invariant CInv (each 64-bit counter = sum over the map + every thread's credit, modulo 2^64; every order id in exactly one place), the supply potential never grows (BInv), hence at every point the stored counters are the exact un-wrapped quantities and at quiescence the aggregates equal the sums over the resting orders. "
-         "Partial: the per-order ledger is judged on real runs (C03.idOk), not proved over the small-step model. Tie: real threads under a deterministic scheduler, event traces compared step by step with the model.",
-         "Lean 4 proof: inductive invariant over an interleaving transition system (45 program-counter kinds), induction over schedules; trace-level correspondence on real threads under a deterministic scheduler", "DESIGN §6 C03"),
+ "C03": ("Theorems over the Lean small-step model for EVERY schedule, any number of threads/ops: the inductive invariant CInv (each 64-bit counter = sum over the map + every thread's credit, modulo 2^64; every order id in exactly one place), the supply potential never grows (BInv), hence at every point the stored counters are the exact un-wrapped quantities and at quiescence the aggregates equal the sums over the resting orders (C03_quiescent); and the per-order ledger (C03_ledger, C03_ledger_prefix): for every order id, at every point of every schedule, resting + held by threads + executed + handed back by cancels + discarded hidden (+ amended down) = initial + supplied by adds (+ amended up), with nothing held at quiescence — no unit executed twice, handed to two cancellers, or lost. "
+         "Events of the ledger are counted where they happen in the model; on real executions the same ledger is judged from return values (C03.idOk). Tie: real threads under a deterministic scheduler, event traces compared step by step with the model.",
+         "Lean 4 proof: inductive invariants over an interleaving transition system (45 program-counter kinds), induction over schedules; trace-level correspondence on real threads under a deterministic scheduler", "DESIGN §6 C03, §11.3"),
  "C08": ("Theorems for every schedule: the ticket-cover invariant (every key has a ticket, or a thread owes/holds it), ownership (handed out at most once), and at quiescence the configuration is a well-formed level — so the sequential theorems apply: a draining match exhausts displayed liquidity and leaves exact aggregates (C08_drain). Tie: E-conc traces + a draining match after the join, judged by C08.scan / C06.ok / C01.ok on the real crate.",
          "Lean 4 proof: cover + ownership invariants over all schedules, composition with the sequential termination/exhaustion theorems; E-conc correspondence", "DESIGN §6 C08"),
  "C12": ("Theorem for every schedule and every prefix: the stored counters equal sum over the map + credits (natural numbers, nothing owed) and are bounded by the total ever supplied (< 2^64), so a reader's load, schedulable anywhere, never sees a wrapped value. Tie: the scheduler reads the three aggregates after every single step of every thread; judged by C12.ok.",
@@ -51,9 +51,9 @@ CLAIMS = {
          "Lean 4 proof (ownership monotonicity over all schedules) + counterexample; E-conc correspondence; known finding", "DESIGN §6 C13"),
  "C14": ("Theorems for every schedule and any number of threads/calls: a draw is one atomic step; the values drawn along any interleaving are g, g+1, … (mod 2^64) in draw order, pairwise distinct below 2^64 draws, and depend only on the starting counter and the number of draws (reproducibility). Assumed: Uuid::new_v5 injective on distinct decimal strings. Tie: E-conc trace must show exactly one fetch_add(1) per draw; ids mapped back to counters via v5(ns,k) computed by the harness.",
          "Lean 4 proof by induction over schedules; E-conc + E-seq correspondence", "DESIGN §6 C14"),
- "C16": ("Theorems: parse(show v) = v for EVERY value whose numeric fields fit their Rust types, for ids (UUID and ULID forms), u64/i64 numbers, side, time-in-force, peg reference, orders (all seven kinds incl. absent replenish amount), order updates (five kinds), transactions, statistics and snapshot summaries — by lemmas on the field splitter (`splitOn`/`parseFields` invert `record`) and on decimal/hex/Crockford digits. "
-         "Partial: for the list-carrying encodings (transaction list, match result, queue, level) the element codecs are proved, the bracket-aware list splitting is tied to the crate by correspondence only. Tie: E-codec — the crate's Display output compared byte for byte with the model's, the crate's parse compared with the model's parse and with the value.",
-         "Lean 4 proof (round-trip lemmas over List Char codecs) + byte-for-byte differential correspondence", "DESIGN §6 C16"),
+ "C16": ("Theorems: parse(show v) = v for EVERY value whose numeric fields fit their Rust types, for every text codec of the crate: ids (UUID and ULID forms), u64/i64 numbers, side, time-in-force, peg reference, orders (all seven kinds incl. absent replenish amount), order updates (five kinds), transactions, statistics, snapshot summaries, and the four list-carrying encodings for lists of any length — order queue, transaction list (bracket-depth splitter), level (substring search, bracket-aware order splitting, header map) and match result (the field loop with its position arithmetic and the bracket scanner). "
+         "Tie: E-codec — the crate's Display output compared byte for byte with the model's, the crate's parse compared with the model's parse and with the value (incl. levels whose orders carry other prices, empty and multi-element lists).",
+         "Lean 4 proof (round-trip theorems over List Char codecs, 92 theorems) + byte-for-byte differential correspondence", "DESIGN §6 C16, §11.3"),
  "C18": ("Theorems: every text parser of the model is a total function (structural or fuel-bounded recursion accepted by Lean's kernel) returning a value or an error for EVERY List Char; every index the repaired MatchResult parser slices at is in range (C18_scan_in_range). The Rust-specific half — no panic at a non-character boundary, no arithmetic overflow in debug builds, no hang — is not expressible in the model and is tied by the run: "
          "every from_str of the crate runs under catch_unwind with a watchdog on mutated encodings (incl. multi-byte characters) and the outcome class is compared with the model's. Defect D found by this check and repaired (fix: 8ee3412).",
          "Lean 4 totality (kernel-accepted definitions + range lemma) + differential correspondence on mutated encodings with panic/hang detection", "DESIGN §6 C18"),
